@@ -47,7 +47,7 @@ RUN_DECLS = """\
   type(field_type) :: cell, df, nlayers, map_w1, f1_data
   type(some_type) :: obj, objs(2)
   real(r_def) :: a, b, sc(2), obj_s, sc_1
-  integer(i_def) :: i, j
+  integer(i_def) :: i, j, idx, jdx
 """
 # gfortran 12 has an internal compiler error on a derived type with an ARRAY component of a type that has
 # finalisable (field_type) components, so the executed variant uses a scalar component g
@@ -57,7 +57,7 @@ RUN_FIELD_POOL = [c for c in G.FIELD_POOL if not any(n == "g" for n, _ in c)] + 
     [("objs", "2"), ("v", "j")]]
 RUN_FIELD_POOL = RUN_FIELD_POOL[:-9] + RUN_FIELD_POOL[-4:] + RUN_FIELD_POOL[-9:-4]      # adversarial names stay last
 NO_RUN = {"X_divideby_Y", "inc_X_divideby_Y"}          # a zero divisor would only test IEEE arithmetic
-IDX = {"i": "1", "j": "2"}
+IDX = {"i": "1", "j": "2", "idx": "1", "jdx": "2"}
 
 
 def location(arg):
@@ -87,7 +87,7 @@ def driver(spec, name):
                     lst.append(location(a))
     fval = {loc: Fraction(3 + 2 * n, 4) for n, loc in enumerate(flocs)}          # 0.75, 1.25, ...: all distinct
     sval = {loc: Fraction(-(5 + 2 * n), 8) for n, loc in enumerate(slocs)}       # negative: distinct from fields
-    body = ["    i = 1", "    j = 2"]
+    body = ["    i = 1", "    j = 2", "    idx = 1", "    jdx = 2"]
     for loc in flocs:
         body.append('    call init_field(%s, %s_r_def)' % (loc, float(fval[loc])))
     for loc in slocs:
